@@ -88,6 +88,119 @@ def check_program(case):
             "sample": text[:400]}
 
 
+# ---- every core construct over operands of every type (well-typed or not) ----------------------------------------------
+# The typed generator above keeps programs mostly well typed; the specification also fixes what happens when an operand has
+# the "wrong" type (`true && 1` is an error, `[1] + "a"` a string, `{a: [1]} + {a+: [2]}` is `[1, 2]` in that order ...).
+# Templates are source text; the tree the reference interpreter runs is the parser's (C15 decides the parser).
+OPERANDS = [
+    "null", "true", "false", "0", "1", "-1", "2", "3", "1.5", "64", "-0", "1e300", "9007199254740993",
+    "''", "'a'", "'b'", "'ab'", "'\u00e9\ud83d\ude00'", "'1'",
+    "[]", "[1]", "[1, 2, 3]", "['a']", "[[1]]", "[null]", "[1, 'a']", "[error 'lazy', 2]",
+    "{}", "{a: 1}", "{a: 1, b:: 2}", "{b: 'x'}", "{a: [1]}", "{a: {b: 1}}", "{a: 1, assert self.a > 0 : 'pos'}", "{a: -1, assert self.a > 0 : 'pos'}",
+    "(function(x) x)", "(function(x, y=2) [x, y])", "(function() 7)",
+]
+BIN_TEXT = ["+", "-", "*", "/", "%", "<<", ">>", "<", "<=", ">", ">=", "==", "!=", "&", "^", "|", "&&", "||", "in"]
+TEMPLATES = [f"{{A}} {op} {{B}}" for op in BIN_TEXT] * 2 + [
+    "-{A}", "+{A}", "!{A}", "~{A}",
+    "if {A} then {B} else {C}", "if {A} then {B}", "if {A} == {B} then {C} else {D}",
+    "{A}[{B}]", "{A}[{B}:{C}]", "{A}[{B}:{C}:{D}]", "{A}[::{B}]", "{A}[{B}:]", "{A}.a", "{A}.a.b",
+    "{A}({B})", "{A}({B}, {C})", "{A}(x={B})", "{A}(y={B}, x={C})", "{A}({B}, x={C})", "{A}()",
+    "error {A}", "assert {A}; {B}", "assert {A} : {B}; {C}",
+    "{{[{A}]: 1}}", "{{[{A}]: 1, [{B}]: 2}}", "{{a: 1}} + {{[{A}]+: {B}}}", "{{[{A}]:: {B}}}", "{{a: {A}, [if {B} then 'b']: {C}}}",
+    "[x for x in {A}]", "[x for x in {A} if {B}]", "[[x, y] for x in {A} for y in {B}]", "{{[k]: 1 for k in {A}}}", "{{[k + '']: {B} for k in {A}}}",
+    "{A} {{a: 2}}", "{A} {{a+: {B}}}", "{A} + {B} + {C}", "{A} + ({B} + {C})",
+    "{{a: {A}}} + {{a+: {B}}}", "{{a: {A}}} + {{a+: {B}}} + {{a+: {C}}}", "{{a: {A}}} + {{b: super.a, a+: {B}}}", "{{a:: {A}}} + {{a+: {B}}}",
+    "{{a: {A}}} + {{a: super.a + {B}}}", "{{a: {A}}} + {{b: {B} in super}}", "{{a: {A}}} + {{b: super[{B}]}}", "{{a: {A}, b: self.a + {B}}}",
+    "{{a: {A}}} + {{a+: {{c: super.b}}}}", "{{a: {A}}} {{a+: {B}}}.a",
+    "{{a: 1, assert {A}}}.a", "{{a: 1, assert {A} : {B}}}.a", "{{a: 1, assert {A}}} + {{b: 2}}", "{A} + {{assert {B} : 'ext'}}",
+    "local f(x, y={A}) = [x, y]; f({B})", "local f(x, y={A}) = [x, y]; f({B}, {C})", "local f(x) = x; f({A}, {B})", "local f(x, y) = x; f(y={A}, x={B})",
+    "local f(x, y=x) = [x, y]; f({A})", "local f(x={A}) = x; f()", "local f(x) = x; f(z={A})", "local f(x) = x; f()",
+    "local v = {A}; [v, v] == [{B}, {B}]", "{A} == {B} && {C} != {D}", "{A} < {B} || {C} >= {D}", "[{A}, {B}] < [{C}, {D}]", "[{A}] + [{B}] == [{C}, {D}]",
+    "{{a: {A}}} == {{a: {B}}}", "{{a: {A}, b:: {B}}} == {{a: {C}}}", "{A} in {B} && {C}", "!({A} in {B}) || {C}",
+    "{A} tailstrict", "{A}({B}) tailstrict",
+]
+WRAPS = ["(@)", "(@)", "(@)", "(local v = @; v)", "{k: @}.k", "[@][0]", "(if true then @)"]
+
+
+@st.composite
+def construct_case(draw):
+    return {"template": draw(st.integers(0, len(TEMPLATES) - 1)), "operands": [draw(st.integers(0, len(OPERANDS) - 1)) for _ in range(4)],
+            "wraps": [draw(st.integers(0, len(WRAPS) - 1)) for _ in range(4)]}
+
+
+def strip_tree(t):
+    if isinstance(t, list):
+        return [strip_tree(x) for x in t]
+    if isinstance(t, dict):
+        o = {k: strip_tree(v) for k, v in t.items() if k != "span"}
+        if o.get("k") == "number":
+            o["text"] = o.pop("value")
+        return o
+    return t
+
+
+def check_construct(case):
+    from . import c15
+    if "text" in case:  # stored regression inputs name the program itself
+        case = dict(case, template=0, operands=[0, 0, 0, 0], wraps=[0, 0, 0, 0])
+    tmpl = TEMPLATES[case["template"]]
+    ops = {}
+    for name, i, w in zip("ABCD", case["operands"], case["wraps"]):
+        ops[name] = WRAPS[w].replace("@", OPERANDS[i])
+    text = tmpl
+    for name in "ABCD":
+        text = text.replace("{" + name + "}", "\0" + name)
+    text = text.replace("{{", "{").replace("}}", "}")
+    for name in "ABCD":
+        text = text.replace("\0" + name, ops[name])
+    if "text" in case:
+        text, tmpl = case["text"], "stored"
+    a_is_string = OPERANDS[case["operands"][0]].startswith("'")
+    if tmpl == "{A} % {B}" and a_is_string:
+        return {"labels": ["format-operator"]}  # `string % x` is std.format: C19's subject, not the core language
+    pr = util.request({"op": "parse", "src": text}, what=text)
+    if "ok" not in pr:
+        if tmpl.endswith("tailstrict") and "(" not in tmpl:
+            return {"labels": ["not-syntax"]}
+        raise RuntimeError(f"template does not parse: {text!r}: {pr}")
+    tree = strip_tree(c15.norm(pr["ok"]["ast"]))
+    ref = interp.evaluate(tree)
+    if ref[0] == "limit":
+        return {"labels": ["ref-limit"]}
+    r = util.request({"op": "eval", "src": text, "want": ["multi", "typed"], "fuel": 2_000_000, "max_stack": 500}, what=text)
+    if "err" in r and r["err"].get("fuel"):
+        return {"labels": ["impl-fuel"]}
+    if ref[0] == "error" and ref[1] == "static":
+        if "ok" in r or r["err"].get("phase") != "analyze":
+            raise Violation("spec-static-impl-differs", f"the specification rejects {text!r} statically ({ref[2]}), the implementation: {str(r)[:200]}")
+        return {"labels": ["static"]}
+    if ref[0] == "value":
+        if "ok" not in r:
+            raise Violation("spec-value-impl-error", f"the specification gives {str(ref[1])[:200]} but evaluation failed ({r['err'].get('phase')}/{r['err'].get('variant')}: {r['err'].get('detail')}) for {text!r}")
+        want = py_to_typed(ref[1])
+        got = r["ok"]["typed"]
+        if not V.same(got, want, zero_sign=False):
+            raise Violation("spec-value-differs", f"the specification gives {V.show(want)[:300]}, the implementation {V.show(got)[:300]} for {text!r}")
+        out = "value"
+    else:
+        _, kind, msg = ref
+        if "ok" in r and msg == "cannot manifest function":
+            return {"labels": ["top-level-function"]}  # the engine calls a top-level function without parameters (C12's subject)
+        if "ok" in r:
+            raise Violation("spec-error-impl-value", f"the specification makes the program fail ({kind}: {msg}) but it evaluated to {V.show(r['ok']['typed'])[:200]}: {text!r}")
+        e = r["err"]
+        if e.get("phase") in ("lex", "parse", "analyze"):
+            raise Violation("spec-error-impl-static", f"a well-formed program was rejected before evaluation ({e.get('variant')} {e.get('detail')}): {text!r}")
+        # several operands may fail (an `error 'lazy'` element, a failing assertion, a type error): the first one met depends
+        # on evaluation order, so a message is only compared when it is the only possible failure
+        n_fail_sites = text.count("error ") + text.count("assert ")
+        if kind == "explicit" and n_fail_sites == 1 and (e["variant"] != "ExplicitError" or e["detail"]["message"] != msg):
+            raise Violation("explicit-error-differs", f"expected `error` with message {msg!r}, got {e['variant']} {e.get('detail')}: {text!r}")
+        out = "error"
+    return {"nontrivial": True, "labels": [out, tmpl[:24]], "sample": text[:300]}
+
+
 CHECKS = [
     Check("reference_interpreter", check_program, program_case, quick=1000, thorough=12000),
+    Check("constructs_over_all_operand_types", check_construct, construct_case, quick=1500, thorough=30000),
 ]
